@@ -172,6 +172,16 @@ def fitted_scope(ctx, props):
         case_u = dict(X=Xu, y=yu, X_dev=None, y_dev=None, quantitative=['q_noise'], qualitative=[], ordinal=[], values_orders={}, target='binary', origin=dict(kind='ulp_sandwich'))
         for k_ in ('QuantitativeDiscretizer', 'Discretizer'):
             specs.append((k_, case_u, dict(min_freq=0.1, max_n_mod=3, sort_by='tschuprowt', dropna=True, output_dtype=['str', 'float'][j % 2]), 5000 + j))
+    # a large share of missing values, a spike, a few rows below the spike (a rare bucket of its own after ContinuousDiscretizer) and a continuous tail above it:
+    # bucket frequencies are shares of ALL rows (missing ones included), so the rare bucket must be merged
+    for j in range(6 if ctx.tier == 'quick' else 40):
+        m = ctx.rng.choice([200, 300, 500]); nan_share = ctx.rng.choice([0.3, 0.4, 0.5]); n_nan = int(m * nan_share); n_rare = max(2, int(m * 0.035)); n_spike = int(m * 0.25)
+        vals = [float('nan')] * n_nan + [1.0 + 0.01 * i for i in range(n_rare)] + [5.0] * n_spike + [5.5 + 10 * ctx.rng.random() for _ in range(m - n_nan - n_rare - n_spike)]
+        ctx.rng.shuffle(vals)
+        Xu = pd.DataFrame({'q_gap': pd.Series(vals, dtype=float)}); yu = pd.Series([int(ctx.rng.random() < 0.4) for _ in range(m)])
+        case_u = dict(X=Xu, y=yu, X_dev=None, y_dev=None, quantitative=['q_gap'], qualitative=[], ordinal=[], values_orders={}, target='binary', origin=dict(kind='nan_share_rare_bucket'))
+        for k_ in ('QuantitativeDiscretizer', 'Discretizer'):
+            specs.append((k_, case_u, dict(min_freq=0.1, max_n_mod=3, sort_by='tschuprowt', dropna=True, output_dtype=['str', 'float'][j % 2]), 6000 + j))
     ctx.bound('Discretizer family fit', '%d seeded random frames (incl. degenerate columns, empty-string categories, never-observed ordinal values), min_freq in {0.05,0.1,0.2,0.25,0.34,0.5}' % n)
     for recs in zoo.pmap(one_fit, specs):
         for clause, ok, wit, msg in recs: ctx.check(clause, clause.split('#')[0], ok, wit, msg)
